@@ -1,0 +1,35 @@
+//go:build verif
+
+package main
+
+import (
+	"encoding/json"
+	"log"
+	"net/http"
+	"os"
+	"runtime/pprof"
+
+	"github.com/bolkedebruin/rdpgw/cmd/rdpgw/protocol"
+)
+
+// Debug listener for the external verification harness (build tag `verif`).
+// RDPGW_VERIF_DEBUG=127.0.0.1:port serves /goroutines and /points.
+func init() {
+	addr := os.Getenv("RDPGW_VERIF_DEBUG")
+	if addr == "" {
+		return
+	}
+	m := http.NewServeMux()
+	m.HandleFunc("/goroutines", func(w http.ResponseWriter, r *http.Request) {
+		pprof.Lookup("goroutine").WriteTo(w, 2)
+	})
+	m.HandleFunc("/points", func(w http.ResponseWriter, r *http.Request) {
+		hits, delays := protocol.VerifPointCounters()
+		json.NewEncoder(w).Encode(map[string]any{"hits": hits, "delays": delays})
+	})
+	go func() {
+		if err := http.ListenAndServe(addr, m); err != nil {
+			log.Printf("verif debug listener: %s", err)
+		}
+	}()
+}
